@@ -701,6 +701,14 @@ class Layer(BaseObject):
                 glyph = self._glyphs[glyphName]
                 glyph.destroyAllRepresentations(None)
                 glyph.clear()
+                # a GLIF only mentions the data it holds: go back to the
+                # defaults first, so that data removed from the file is
+                # removed from the glyph as well.
+                glyph.width = 0
+                glyph.height = 0
+                glyph.unicodes = []
+                glyph.note = None
+                glyph.lib.clear()
                 pointPen = glyph.getPointPen()
                 self._glyphSet.readGlyph(glyphName=glyphName, glyphObject=glyph, pointPen=pointPen)
                 glyph.dirty = False
